@@ -17,16 +17,21 @@ pub struct Synth {
     pub footer: Option<String>,
     /// emit isstd/isut indicator arrays
     pub indicators: bool,
+    /// number of leap-second records in every populated block (the "right/" flavour of the
+    /// database; the reader has to step over them: 8 bytes each in the 32-bit block, 12 in the
+    /// 64-bit block)
+    #[serde(default)]
+    pub leaps: u8,
 }
 
-fn block(time_size: usize, types: &[(i32, bool)], transitions: &[(i64, u8)], indicators: bool, version_byte: u8) -> Vec<u8> {
+fn block(time_size: usize, types: &[(i32, bool)], transitions: &[(i64, u8)], indicators: bool, version_byte: u8, leaps: usize) -> Vec<u8> {
     let mut out = Vec::new();
     let chars = b"LMT\0STD\0DST\0";
     let ind = if indicators { types.len() } else { 0 };
     out.extend_from_slice(b"TZif");
     out.push(version_byte);
     out.extend_from_slice(&[0u8; 15]);
-    for v in [ind, ind, 0, transitions.len(), types.len(), chars.len()] {
+    for v in [ind, ind, leaps, transitions.len(), types.len(), chars.len()] {
         out.extend_from_slice(&(v as u32).to_be_bytes());
     }
     for (t, _) in transitions {
@@ -45,6 +50,15 @@ fn block(time_size: usize, types: &[(i32, bool)], transitions: &[(i64, u8)], ind
         out.push(if k == 0 { 0 } else if *dst { 8 } else { 4 });
     }
     out.extend_from_slice(chars);
+    for k in 0..leaps {
+        let at = 78_796_800i64 + k as i64 * 47_304_000 + k as i64;
+        if time_size == 4 {
+            out.extend_from_slice(&(at as i32).to_be_bytes());
+        } else {
+            out.extend_from_slice(&at.to_be_bytes());
+        }
+        out.extend_from_slice(&(k as i32 + 1).to_be_bytes());
+    }
     out.extend(std::iter::repeat(0u8).take(ind)); // isstd
     out.extend(std::iter::repeat(0u8).take(ind)); // isut
     out
@@ -58,15 +72,15 @@ impl Synth {
             _ => b'3',
         };
         if self.version == 1 {
-            return block(4, &self.types, &self.transitions, self.indicators, vb);
+            return block(4, &self.types, &self.transitions, self.indicators, vb, self.leaps as usize);
         }
         let mut out = if self.v1_populated {
             let t32: Vec<(i64, u8)> = self.transitions.iter().copied().filter(|(t, _)| i32::try_from(*t).is_ok()).collect();
-            block(4, &self.types, &t32, self.indicators, vb)
+            block(4, &self.types, &t32, self.indicators, vb, self.leaps as usize)
         } else {
-            block(4, &[(0, false)], &[], false, vb)
+            block(4, &[(0, false)], &[], false, vb, 0)
         };
-        out.extend(block(8, &self.types, &self.transitions, self.indicators, vb));
+        out.extend(block(8, &self.types, &self.transitions, self.indicators, vb, self.leaps as usize));
         out.push(b'\n');
         out.extend_from_slice(self.footer.as_deref().unwrap_or("").as_bytes());
         out.push(b'\n');
@@ -234,5 +248,5 @@ pub fn gen_synth(u: &mut Unstructured) -> Result<Synth> {
             }
         }
     }
-    Ok(Synth { version, types, transitions, v1_populated: version != 1 && u.coin(1, 2)?, footer, indicators: u.coin(1, 2)? })
+    Ok(Synth { version, types, transitions, v1_populated: version != 1 && u.coin(1, 2)?, footer, indicators: u.coin(1, 2)?, leaps: if u.coin(1, 5)? { u.int_in_range(1..=27u8)? } else { 0 } })
 }
